@@ -82,7 +82,8 @@ def run_pieces(wexe, db, pieces, timeout=180):
             for row in t[1:]:
                 # a row = heading -> value for the cells that were punched (late columns are empty-padded in a longer call)
                 cells = tuple(sorted((h, json.dumps(c, sort_keys=True)) for i, (h, c) in enumerate(zip(heads, row)) if i not in mask and c is not None))
-                rows.setdefault(n, []).append(cells)
+                if cells:          # a row with no punched cell carries no data (it exists only when the table already has columns)
+                    rows.setdefault(n, []).append(cells)
     final = res[-1]
     # the description of saved entities embeds the simulation counter ("... after simulation 3."): masked like the sim column
     dump = re.sub(r"after simulation \d+\.?", "after simulation #", final["dump"])
@@ -155,6 +156,10 @@ def run(ctx):
             inputs = inputs[:14]
         for k in range(ctx.n(80, 600)):
             t, info = gen_inputs.multi_sim_input(ctx.rng, nsims=ctx.rng.randint(2, 5), allow_redefine=True, no_simno=True)
+            if ctx.rng.random() < 0.6:
+                # a first simulation that defines persistent options/definitions (KNOBS, PRINT, INCREMENTAL_REACTIONS, RATES, CALCULATE_VALUES, database additions ...)
+                import props.c07 as c07
+                t = ctx.rng.choice([p for p in c07.PERTURB if "USER_GRAPH" not in p and "SIM" not in p]) + t + "USE solution 1\nREACTION 1\n NaCl 1\n 0.001 0.002 0.004\nEND\n"
             inputs.append(("gen%d" % k, "phreeqc.dat", t))
         fixed = None
     jobs = []
@@ -182,7 +187,16 @@ def run(ctx):
         s = run_pieces(wexe, db, pieces)
         if s is None:
             return job, "driver", None
-        return job, compare(w, s), s["rcs"]
+        v = compare(w, s)
+        if v:
+            # confirm on fresh processes: only a difference that reproduces is reported (a transient one is counted)
+            w2 = run_pieces(wexe, db, [("RunString", "".join(sims))])
+            s2 = run_pieces(wexe, db, pieces)
+            v2 = compare(w2, s2) if (w2 and s2) else v
+            if not v2:
+                return job, "transient", s["rcs"]
+            v = v2
+        return job, v, s["rcs"]
     with cf.ThreadPoolExecutor(max_workers=vlib.NCPU) as ex:
         results = list(ex.map(do, jobs))
     dist = {"skipped_error_or_timeout": 0, "entries": {}, "pieces": {}}
@@ -190,6 +204,9 @@ def run(ctx):
         if verdict == "skip":
             dist["skipped_error_or_timeout"] += 1
             continue
+        if verdict == "transient":
+            dist["transient_differences_not_reproduced"] = dist.get("transient_differences_not_reproduced", 0) + 1
+            verdict = None
         for e in entries:
             dist["entries"][e] = dist["entries"].get(e, 0) + 1
         dist["pieces"][len(p)] = dist["pieces"].get(len(p), 0) + 1
